@@ -307,7 +307,15 @@ Expand(s) ==
                       \cup { Fn1(f, AbsP(o \o <<Step("namespace", t, <<>>)>>)) : f \in {"count", "string", "boolean"}, o \in One, t \in NT }
                       \cup { Fn1(f, AbsP(o \o <<Step("namespace", NameT(n), <<>>)>>)) : f \in {"name", "local-name", "namespace-uri"}, o \in One, n \in {"p", "q", "xml"} }
                       \cup { Fn1("count", AbsP(o \o <<Step("namespace", AnyT, <<>>), Step(ax, TypeT("node"), <<>>)>>)) :
-                               o \in One, ax \in {"child", "descendant", "attribute", "self", "following-sibling"} }
+                               o \in One, ax \in {"child", "descendant", "attribute", "self", "following-sibling",
+                                                  \* a namespace node has a parent (its element), ancestors, and nodes before/after it
+                                                  "parent", "ancestor", "ancestor-or-self", "following", "preceding"} }
+                      \cup { Fn1(f, AbsP(o \o <<Step("namespace", NameT("p"), <<>>), Up>>)) : f \in {"name", "count"}, o \in One }
+                      \* every element has namespace nodes of its own: the namespace axis over several elements
+                      \cup { Fn1("count", AbsP(<<Dos, Step("namespace", t, <<>>)>>)) : t \in NT }
+                      \cup { Fn1("count", AbsP(<<Dos, Step("namespace", AnyT, <<>>), Up>>)),
+                             Fn1("count", AbsP(<<Dos, Step("namespace", AnyT, <<>>), Step("self", TypeT("node"), <<>>)>>)),
+                             Fn1("count", Bin("|", AbsP(<<Ch("a"), Step("namespace", AnyT, <<>>)>>), AbsP(<<Ch("a"), Ch("c"), Step("namespace", AnyT, <<>>)>>))) }
     [] s.fam = "kw" ->
          LET KwNames == {"order", "self", "text", "div", "selfish", "a-b", "or", "and", "mod", "textual", "andy", "orb", "comment", "node"}
              E(n) == AbsP(<<Dos, Ch(n)>>)
